@@ -9,3 +9,5 @@ cd "$(dirname "$0")/.." 2>/dev/null || true
 python3 "$(dirname "$0")/../vx/bounded.py" jsonrt quick >/dev/null 2>&1 || true
 python3 "$(dirname "$0")/../vx/bounded.py" gqlrt quick >/dev/null 2>&1 || true
 python3 "$(dirname "$0")/../vx/bounded.py" srcmap quick >/dev/null 2>&1 || true
+python3 "$(dirname "$0")/../vx/bounded.py" nopanic quick >/dev/null 2>&1 || true
+python3 "$(dirname "$0")/../vx/bounded.py" tsverdict quick >/dev/null 2>&1 || true
